@@ -541,6 +541,70 @@ func verifRunOp(f []string) (res string) {
 			return "decerr"
 		}
 		return "ok " + hex.EncodeToString(pt)
+	case "tamper": // tamper <keyhex> <pthex> <kind> <n>: encrypt, damage the ciphertext (or the key), decrypt
+		key, _ := hex.DecodeString(f[2])
+		pt, _ := hex.DecodeString(f[3])
+		n, _ := strconv.Atoi(f[5])
+		ct, err := Encrypt(pt, key)
+		if err != nil {
+			return "encerr"
+		}
+		dkey := append([]byte{}, key...)
+		switch f[4] {
+		case "f": // flip one bit
+			i := n % (len(ct) * 8)
+			ct[i/8] ^= 1 << (i % 8)
+		case "t": // keep the first n mod (len+1) bytes
+			ct = ct[:n%(len(ct)+1)]
+		case "a": // append a byte
+			ct = append(ct, byte(n))
+		case "k": // another key
+			dkey[n%64]++
+		case "s": // swap the two key halves
+			dkey = append(append([]byte{}, key[32:]...), key[:32]...)
+		}
+		pt2, err := Decrypt(ct, dkey)
+		if err != nil {
+			return "decerr " + hex.EncodeToString(ct)
+		}
+		return "ok " + hex.EncodeToString(ct) + " " + hex.EncodeToString(pt2)
+	case "b64e": // b64e <hex>: the text the repository writes for these bytes (key file, ciphertext leaf)
+		raw, _ := hex.DecodeString(f[2])
+		return "ok " + hex.EncodeToString([]byte(base64.StdEncoding.EncodeToString(raw)))
+	case "b64d": // b64d <hex of text>: what the repository's readers (key file, decrypt command) make of it
+		txt, _ := hex.DecodeString(f[2])
+		raw, err := base64.StdEncoding.DecodeString(string(txt))
+		if err != nil {
+			return "err"
+		}
+		return "ok " + hex.EncodeToString(raw)
+	case "readkey": // readkey <hex of file content>: ReadKeyFromFile on a file with exactly these bytes
+		content, _ := hex.DecodeString(f[2])
+		tf, err := os.CreateTemp("", "verif-key-*")
+		if err != nil {
+			return "tmperr"
+		}
+		defer os.Remove(tf.Name())
+		tf.Write(content)
+		tf.Close()
+		key, err := ReadKeyFromFile(tf.Name())
+		if err != nil {
+			return "err"
+		}
+		return "ok " + hex.EncodeToString(key)
+	case "writekey": // writekey <keyhex>: the bytes WriteKeyToFile stores, and its mode
+		key, _ := hex.DecodeString(f[2])
+		dir, err := os.MkdirTemp("", "verif-key-*")
+		if err != nil {
+			return "tmperr"
+		}
+		defer os.RemoveAll(dir)
+		fn := dir + "/k"
+		if err := WriteKeyToFile(fn, key); err != nil {
+			return "err"
+		}
+		content, _ := os.ReadFile(fn)
+		return "ok " + hex.EncodeToString(content)
 	case "hosts":
 		hs, err := GetHostsFromConnectionString(unhx(f[2]))
 		if err != nil {
